@@ -80,7 +80,9 @@ TWINS = [
     ("schema.dict({'a': schema.any(schema.int, schema.float), 'b': schema.any(schema.int, schema.float)})", "{'a': 1, 'b': 1.0}"),
     # placeholders meeting length bounds / untyped containers: the result must stay usable
     ("schema.list(schema.int).len(2, ...)", "[1, ...]"), ("schema.list(schema.int).len(3, 5)", "[..., 1, 2]"),
-    ("schema.list(schema.int).len(2)", "[1, ...]"), ("schema.list.len(2, ...)", "[..., 'x']"), ("schema.list.len(..., 3)", "[1, ...]"),
+    ("schema.list(schema.int).len(2)", "[1, ...]"), ("schema.list(schema.int).len(2)", "[1, 2, 3, ...]"),
+    ("schema.list(schema.int).len(..., 2)", "[..., 1, 2, 3]"), ("schema.list.len(1)", "[1, 2, ...]"),
+    ("schema.dict({'k': schema.list(schema.str).len(1, 2)})", "{'k': ['a', 'b', 'c', ...]}"), ("schema.list.len(2, ...)", "[..., 'x']"), ("schema.list.len(..., 3)", "[1, ...]"),
     ("schema.list(schema.str).len(1, 4)", "[..., 'a', 'b']"), ("schema.dict", "{'a': ..., 'b': 1}"),
     ("schema.dict({...: ...})", "{'zz': ..., ...: ...}"), ("schema.dict({...: ...})", "{'zz': ...}"),
     ("schema.dict({'a': schema.list(schema.int).len(2, ...)})", "{'a': [1, ...]}"),
@@ -328,6 +330,30 @@ def third_values(ctx, c, limit=10):
             ws.append(("conform-S", gen.conform(r, c.schema)))
         except Exception:  # noqa
             pass
+    # dict members the value does not mention (optional ones above all): filled with values their member schema
+    # accepts and with perturbations of those - what was declared for them must still be in force
+    from d42.declaration.types import DictSchema
+    def fill(s, v, depth=0):
+        out = []
+        if isinstance(s, DictSchema) and isinstance(v, dict) and s.props.get("keys") is not Nil and depth < 4:
+            for k, (sub, opt) in s.props.keys.items():
+                if k is ... or sub is ...:
+                    continue
+                if k not in v:
+                    try:
+                        good = gen.conform(r, sub)
+                    except Exception:  # noqa
+                        continue
+                    for x in [good] + gen.perturbations(r, good, limit=3):
+                        out.append({**v, k: x})
+                else:
+                    for inner in fill(sub, v[k], depth + 1)[:3]:
+                        out.append({**v, k: inner})
+        return out
+    try:
+        ws += [("unmentioned-member", w) for w in fill(c.schema, c.value)[:8]]
+    except Exception:  # noqa
+        pass
     return ws
 
 
